@@ -131,6 +131,7 @@ func runConcMode(in *os.File, out *bufio.Writer, facets map[string]bool) {
 		w.recordRaw = true
 		runScenarioIn(w, out, "solo_"+ids[i], reparse(i), facets, false, nil)
 		solo[i] = w.rawOutputs
+		nops += len(scens[i])
 	}
 	unequal := []interface{}{}
 	compared := 0
